@@ -483,7 +483,7 @@ func checkC19(tier string) int {
 	corpus := genCorpus(true)
 	var all []genResult
 	budget := 120.0
-	randRuns, enumLimit, cliFrac := 4000, 400, 20
+	randRuns, enumLimit, cliFrac := envInt("VERIF_C19_RUNS", 4000), envInt("VERIF_C19_ENUM_LIMIT", 400), 20
 	if tier == "thorough" {
 		budget = float64(envInt("VERIF_BUDGET_S", 1500))
 		randRuns, enumLimit, cliFrac = 0, 0, 30
